@@ -37,8 +37,8 @@ def r1(c):
         c.ob('%s/result' % fn_, okr, '%s returns true exactly on that edge, false otherwise' % fn_, '', loc_of(b))
     g = P.fn(DB + 'get_entry')
     gt = one([cs for cs in g.calls() if cs.callee.endswith('HashMap::get')], 'map.get')
-    oo = [cs for cs in g.calls('core::option::Option::ok_or')]
-    okg = len(oo) == 1 and (q.agg_variant_of(g, oo[0].args[1]) or ('', ''))[1] == 'InvalidIndex' and 'index' in q.closure_names(g, gt.args[1])
+    okl, how = q.lookup_or_error(g, gt, ('rodbus_ffi::ffi::ParamError', 'InvalidIndex'))
+    okg = okl and 'index' in q.closure_names(g, gt.args[1])
     mut = [cs for cs in g.calls() if cs.callee.endswith('::insert') or cs.callee.endswith('::remove') or cs.callee.endswith('::entry')]
     c.ob('get_entry', okg and not mut, 'get_entry returns map.get(&index) or ParamError::InvalidIndex and changes nothing', '', loc_of(g))
 
